@@ -612,9 +612,7 @@ theorem cycle_nopanic (p : Program) (hl : p.body.lowerable = true) (fuel : Nat) 
     have hw : StoreWF { vars := σ1.vars, globals := σ1.globals, frames := σ1.frames.tail } := h.1
     split
     · exact ⟨hw, fun s e => by cases e⟩
-    · split
-      · exact ⟨hw, fun s e => by cases e⟩
-      · exact ⟨hw, fun s e => by injection e with e; subst e; rfl⟩
+    · exact ⟨hw, fun s e => by cases e⟩
     · exact ⟨hw, fun s e => by injection e with e; subst e; rfl⟩
     · rename_i s' heq
       exact ⟨hw, fun s e => by injection e with e; subst e; exact h.2 _ (by simpa using heq)⟩
